@@ -119,7 +119,7 @@ CLAIMED = {
              'parent id; the forward gate is transitive (a definition that fulfils a declaration stores its own outstanding requirements in the '
              'declaration\'s cell on every registering path, and require_forwards passes the requirements of a fulfilled declaration\'s cell on to its '
              'work list); a function value created over a pending capture follows the pending chain first and stays pending only if the cell is still '
-             'unfilled. NOT decided: that the resolved (depth, index) pairs are right for every nesting shape. One known finding: pending captures '
+             'unfilled; the lexical-parent search of a call falls back to the root of the call stack (a function declared at the root is found from any caller). NOT decided: that the resolved (depth, index) pairs are right for every nesting shape. One known finding: pending captures '
              'are resolved through lexical parent links with expect(), which an escaped function value does not have.',
         note='Trusted: rustc MIR, syn; python re as the reading of the interner regex literal. Known finding R03.10 in known_findings.json.',
         technique='static analysis: who-reads, must-pass-through (avoiding-path reachability), call-graph may-allocate closure, syntax-tree shape rules',
